@@ -661,7 +661,7 @@ def run_program_values(prog: dict) -> dict:
             elif isinstance(v, dict) and v.get("k") == "single":
                 d["_single"] = v["v"]
             out.append(d)
-    return {"prog": prog, "ev": out, "status": tr["status"]}
+    return {"prog": prog, "ev": out, "status": tr["status"], "oplog": tr.get("oplog", [])}
 
 
 def judge_spans(run: Run, traces: list[dict], own: tuple[str, ...], batch_spans: int = 40, par: int = 4):
@@ -726,6 +726,10 @@ def judge_spans(run: Run, traces: list[dict], own: tuple[str, ...], batch_spans:
     run.cov["traces_validated_against_impl"] += nsp
     run.cov["evaluations"] += nsp
     run.cov["families"]["spans"] = run.cov["families"].get("spans", 0) + nsp
+    # the environment these spans were judged in: the simulator's logs must be behaviours of Registers.tla
+    from . import checks_sim
+    checks_sim.validate_logs(run, [lg for tr in traces for lg in tr.get("oplog", [])],
+                             sample=100 if run.tier != "thorough" else 1500, seed=nsp)
     return nsp
 
 
